@@ -42,6 +42,7 @@ func c08() []*Ob {
 				ErrFlowCheck(c, scope, []ErrFlowAllow{
 					{Func: "util.MustSyncPath", Callee: "(*os.File).Close", Reason: "best-effort close on the failure path immediately before logger.Panic; the other Close is checked"},
 				})
+				ErrPathCheck(c, scope, nil)
 				// the generator closures and push callbacks must be in scope
 				need := []string{"frac.writeSealedFraction", "(*frac.DiskBlocksWriter).writeIDsBlocks", "(*frac.DiskBlocksWriter).writeLIDsBlocks",
 					"(*frac.DiskBlocksProducer).getIDsBlocksGenerator", "(*frac.DiskBlocksProducer).getLIDsBlockGenerator", "(*disk.BlocksWriter).WriteBlock",
@@ -185,6 +186,9 @@ func c08() []*Ob {
 					}
 				}
 			}},
+		{Prop: "C08", ID: "C08.5", Engine: "FILESTATE", Floor: 20,
+			Desc:  "every crash prefix of the seal and release file operations, for all four (SkipSortDocs, KeepMetaFile) settings, is classified ACTIVE or SEALED by the loader with the files that outcome needs; temp suffixes are ignored",
+			Check: func(c *Ctx) { fileStateObligations(c, "C08") }},
 		{Prop: "C08", ID: "C08.4", Engine: "OWN", Floor: 6,
 			Desc: "only the owner functions remove, rename or truncate files: os.Remove/os.RemoveAll/os.Rename/os.Truncate/(*os.File).Truncate call sites in non-test repo code lie in the frozen owner set; Active.removeDocsFiles/removeMetaFile are called only from Active.Release/Suicide",
 			Check: func(c *Ctx) {
@@ -192,6 +196,7 @@ func c08() []*Ob {
 					"(*frac.Active).removeDocsFiles":                 "active docs file removal (Release/Suicide)",
 					"(*frac.Active).removeMetaFile":                  "active meta file removal (Release/Suicide)",
 					"(*frac.Sealed).Suicide":                         "two-phase deletion of a sealed fraction",
+					"frac.truncateFile":                              "cuts the unacknowledged tail of .docs/.meta after replay",
 					"frac.syncRename":                                "publish step of sealing",
 					"fracmanager.removeFile":                         "loader clean-up",
 					"(*fracmanager.sealedFracCache).SaveCacheToDisk": "cache file temp->rename",
@@ -270,35 +275,9 @@ func fatalDominates(fn *ssa.Function, in ssa.Instruction, ev ssa.Value) bool {
 			continue
 		}
 		// every path from fail must end in a fatal sink or a return before reaching in's block
-		if !reachesWithoutFatal(fail, in.Block()) {
+		if !ReachesWithoutFatal(fail, in.Block()) {
 			return true
 		}
 	}
 	return false
-}
-
-func reachesWithoutFatal(from, target *ssa.BasicBlock) bool {
-	seen := map[*ssa.BasicBlock]bool{}
-	var walk func(b *ssa.BasicBlock) bool
-	walk = func(b *ssa.BasicBlock) bool {
-		if seen[b] {
-			return false
-		}
-		seen[b] = true
-		for _, in := range b.Instrs {
-			if IsFatalInstr(in) {
-				return false
-			}
-		}
-		if b == target {
-			return true
-		}
-		for _, s := range b.Succs {
-			if walk(s) {
-				return true
-			}
-		}
-		return false
-	}
-	return walk(from)
 }
